@@ -44,6 +44,12 @@ class Point {
   enum Kind { A, B };
   template<U = {double, int}>
   void scaled(const U& u) const;
+  template<U = {double, int}>
+  Point(const U& u, int tag);
+  template<U = {double}>
+  static geo::Point From(const U& u);
+  template<U>
+  U as() const;
 };
 template<T, U = {int}>
 virtual class Box : geo::Base<T> {
@@ -54,5 +60,5 @@ virtual class Box : geo::Base<T> {
   enum Mode { M1, M2 };
   T item;
 };
-namespace deep { class Inner : geo::Point { Inner(); }; double k = 2; }
+namespace deep { class Inner : geo::Point { Inner(); }; double k = 2; enum Mode { M1 }; typedef geo::Box<geo::Point, int> BoxPI; class Fwd2; }
 }
